@@ -5,10 +5,12 @@
 //! env:   VERIF_SEED (u64, default 1), VERIF_TIER (quick|thorough)
 //! exit:  0 held on everything explored · 1 VIOLATION · 2 inconclusive
 
+mod dbg;
 mod engine;
 mod keys;
 mod pair;
 mod props;
+mod sched;
 mod stack;
 mod wire;
 
@@ -19,6 +21,11 @@ fn main() {
   if args.is_empty() {
     eprintln!("usage: rzmq-verif <ID> [--tier quick|thorough] [--replay <file>]");
     std::process::exit(2);
+  }
+  if args[0] == "dbg-fibre" {
+    dbg::fibre_close_semantics();
+    dbg::fibre_mpsc_drop_semantics();
+    return;
   }
   let id = args[0].to_uppercase();
   let mut tier = match std::env::var("VERIF_TIER").ok().as_deref() {
